@@ -22,6 +22,7 @@ struct Caps {
     bool compat = false;    // settable Policy::call_error
     bool trace = false;     // has trace facet (to a null stream)
     bool small_ids = false; // vptr_vector without hash: ids are indexes
+    bool static_offsets = false; // methods dispatch through static_offsets<>
 };
 
 enum ErrAlt {
@@ -85,6 +86,16 @@ struct UpdateOut {
     std::size_t multi_cells = 0; // sum of multi-method dispatch table sizes
                                  // in the compiler object returned
     std::size_t allocs = 0;      // allocations made during update
+    std::string encoded;         // encode_dispatch_data's output (on request)
+};
+
+// what decode_dispatch_data did (C13)
+struct DecodeOut {
+    bool parsed = false;    // the emitted text has the documented shape
+    std::string parse_why;
+    bool completed = false; // decode returned
+    ErrInfo err;            // error raised meanwhile (hash search)
+    std::size_t headroom = 0, nslots = 0, nvtbls = 0, ndecoded = 0, ndtbls = 0;
 };
 
 struct Snap {
@@ -103,6 +114,9 @@ struct SlotInfo {
     int nparams = 0;
     std::size_t slots_strides[16] = {};
     std::uintptr_t pf_not_implemented = 0, pf_ambiguous = 0;
+    // static_offsets<method> as the call path of this policy reads them
+    bool has_static = false;
+    std::size_t st_slots[8] = {}, st_strides[8] = {};
 };
 
 struct Lookup {
@@ -176,6 +190,27 @@ struct PolicyOps {
     virtual Lookup lookup(tid id) = 0;
     virtual tid class_id(int cls, int alias) = 0; // id this policy uses
     virtual std::uint64_t published_checksum() = 0;
+
+    // C12: the real generator's text for one method (slot >= 0) or for the
+    // whole policy (slot < 0); the values the "compiled" program uses
+    virtual std::string gen_offsets(int slot) {
+        (void)slot;
+        return "";
+    }
+    virtual void set_offsets(
+        int slot, const std::vector<std::size_t>& slots,
+        const std::vector<std::size_t>& strides) {
+        (void)slot;
+        (void)slots;
+        (void)strides;
+    }
+    // C13: decode the emitted text in this policy ("another process holding
+    // the same registrations"); new_process() forgets everything published
+    virtual DecodeOut decode(const std::string& text, const Event& faults) {
+        (void)text;
+        (void)faults;
+        return DecodeOut();
+    }
 };
 
 // registry of policies (filled by static constructors in pol_*.cpp)
